@@ -460,6 +460,11 @@ func (e *Evaluator) callFunction(exp *ExprCall, fn *Cell, args []*Value) (*Cell,
 		}
 
 		if retVal != nil {
+			if retVal.Tag == ValueNil {
+				// a missing member handed back by return is plain null: it does
+				// not keep its link to the container it was missing from
+				return NewCell(NewValue(nil)), nil
+			}
 			return NewCell(*retVal), nil
 		}
 		return NewCell(NewValue(nil)), nil
